@@ -1,2 +1,34 @@
 import CnlDriver.C06
-/-! `C07` table lives in CnlDriver.C06 (same cases, different oracle). -/
+import CnlDriver.C11
+/-! `C07` table: the cases of the `C06` table (CnlDriver.C06: same model, same lines) judged by definedness, plus
+`sn …` lines: static_number / static_integer operations in the line format of the `C11` table, evaluated by the
+C11 model (`CnlModel/Static.lean`: elastic + rounding inside the overflow layer). -/
+namespace Cnl.Drv
+open Cnl Cnl.Overflow
+
+/-- an observation that is undefined behaviour, the internal `unreachable` state or a crash -/
+def c07Bad (res : String) : Bool :=
+  res == "UB" || res == "UNREACHABLE" || res == "SEGV" || res == "ABORT" || res == "TIMEOUT"
+
+/-- C07: the evaluation is defined (no UB, no internal `unreachable`, no crash) -/
+def checkC07 (toks : List String) (res : String) : Option Verdict :=
+  match toks with
+  | "sn" :: rest => do
+    -- static numbers: defined, and (where the C11 oracle has no open class) the value the rounding mode and the
+    -- overflow tag prescribe — a division that executed signed overflow without trapping shows up as a wrong quotient
+    let v ← checkC11 rest res
+    let valueOk := if v.cls.isEmpty then v.spec.getD true else true
+    some { model := v.model, spec := if v.nontrivial then some (!c07Bad res && valueOk) else none, cls := "", branch := "sn/" ++ v.branch,
+           nontrivial := v.nontrivial }
+  | _ =>
+  match c06Winc toks with
+  | some (m, _, br) =>
+    some { model := m, spec := some (!c07Bad res), branch := br, nontrivial := true }
+  | none => do
+  let c ← c06Eval toks
+  let tag := toks.getD 2 ""
+  let m := c06Show c.style tag (showRes showTV c.model)
+  let cls := if c.cls.isEmpty then "" else "C07." ++ (c.cls.drop 4).toString
+  some { model := m, spec := c.want.map (fun _ => !c07Bad res), cls := cls, branch := c.branch, nontrivial := c.want.isSome }
+
+end Cnl.Drv
